@@ -380,10 +380,11 @@ def run_a(c, res):
 
 def layer_b_cases(tier, seed):
     dims = [('n_pop', [6, 7, 8]), ('ratio', [3.0, 2.5, 4.0]), ('cv', [0.03, 0.02, 0.05]), ('n_events', [200, 800]),
-            ('m', [1.0, 0.9, 1.2]), ('b', [3.0, 1.0, 5.0]), ('auto', ['none', 'some']), ('nch', [1, 2, 3]), ('blank', [False, True]),
+            ('m', [1.0, 0.9, 1.2]), ('b', [3.0, 1.0, 5.0, -1.2]), ('auto', ['none', 'some']), ('nch', [1, 2, 3]), ('blank', [False, True]),
             ('saturated', [None, 'brightest', 'dimmest', 'two-brightest']), ('unknown', [None, 'first', 'middle', 'last']),
             ('cluster', ['mef', 'one', 'all-fl', 'with-scatter']), ('container', ['int', 'float']), ('statistic', ['median', 'mean']),
             ('sizes', ['equal', 'alternating', 'increasing', 'decreasing']), ('decades', [5, 4])]
+    # (b = -1.2 lies below the stated interval [1, 5]: one RFI unit worth less than one MEF unit -- a dim bead kit at high gain; legal input)
     bound = 1 if tier == 'quick' else 2
     K = 2 if tier == 'quick' else 4
     streams = [seed * K + i for i in range(K)]
